@@ -11,6 +11,13 @@ def run(rep):
     # distinct source variables stay distinct Python variables, every `_` gets its own (visitVARIABLE contract)
     from . import lexical
     lexical.visitor_deductive(rep, targets=('yp_prolog_visitor.YPPrologVisitor.visitVARIABLE',))
+    # the run-time half of the pipeline: C01 rests on unification (C02), dereferencing (C15), finalisation (C03) and call
+    # resolution (C08); their contracts on the functions every compiled clause goes through are part of this check
+    from .common import UNIFY_FAMILY
+    from . import enginep, syntactic
+    fw.deductive(rep, UNIFY_FAMILY, ['engine_terms'], ['terms.smt2'])
+    enginep.engine_deductive(rep, ['engine.YP.query', 'engine.YP.match_dynamic', 'engine.YP._match_all_clauses', 'engine.Answer.match'], heap_lemmas=False)
+    syntactic.no_direct_cell_writes(rep)
     q = rep.tier == 'quick'
     fw.standin(rep, 'difftest.py', ['run', 'F1', rep.seed, 1500 if q else 20000],
                'translation validation: whole programs (facts, rules, lists, recursion) vs reference SLD interpreter',
